@@ -416,6 +416,21 @@ func (g *qgen) selsFor(typ string, depth int) []Sel {
 			}
 		}
 	}
+	// a fragment whose type condition is a union this object belongs to (inline or named): it applies to the object
+	if us := g.unionsWith(typ); typ != "Query" && len(us) > 0 && len(out) > 0 && r.Chance(14) {
+		un := us[r.Intn(len(us))]
+		cut := r.Intn(len(out))
+		inner := append([]Sel{}, out[cut:]...)
+		out = out[:cut]
+		if r.Chance(40) && len(g.frags) < 10 {
+			name := fmt.Sprintf("U%d", len(g.frags))
+			g.frags = append(g.frags, FragDef{Name: name, On: un, Subs: inner})
+			out = append(out, Sel{Spread: name})
+		} else {
+			out = append(out, Sel{On: un, Subs: inner})
+		}
+		g.stats["union-typed-fragment-on-member"]++
+	}
 	// fragments: move a suffix into an inline or a named fragment on this type
 	if typ != "Query" && len(out) > 1 && r.Chance(30) {
 		cut := 1 + r.Intn(len(out)-1)
@@ -467,6 +482,34 @@ func (g *qgen) dirs(s *Sel) {
 	}
 }
 
+// unionsWith: the unions of the schema (those some field returns) that have typ as a member.
+func (g *qgen) unionsWith(typ string) []string {
+	used := map[string]bool{}
+	note := func(fs []fedgen.Field) {
+		for _, f := range fs {
+			if f.Ret.Kind == "union" {
+				used[f.Ret.Target] = true
+			}
+		}
+	}
+	note(g.u.query)
+	for _, fs := range g.u.objects {
+		note(fs)
+	}
+	var out []string
+	for _, un := range fedgen.UnionNames {
+		if !used[un] {
+			continue
+		}
+		for _, m := range fedgen.UnionMembers[un] {
+			if m == typ {
+				out = append(out, un)
+			}
+		}
+	}
+	return out
+}
+
 func (g *qgen) dir() *Dir {
 	r := g.r
 	d := &Dir{Name: r.Pick([]string{"skip", "include"}), Val: r.Bool()}
@@ -507,6 +550,23 @@ func (g *qgen) unionSels(un string, depth int) []Sel {
 		ms := fedgen.UnionMembers[un]
 		m := ms[r.Intn(len(ms))]
 		out = append(out, Sel{On: m, Subs: g.selsFor(m, depth)})
+	}
+	// the member fragments inside a fragment on the union itself (inline or named)
+	if r.Chance(12) {
+		k := 0
+		for k < len(out) && out[k].On == "" {
+			k++
+		}
+		inner := append([]Sel{}, out[k:]...)
+		out = out[:k]
+		if r.Chance(40) && len(g.frags) < 10 {
+			name := fmt.Sprintf("U%d", len(g.frags))
+			g.frags = append(g.frags, FragDef{Name: name, On: un, Subs: inner})
+			out = append(out, Sel{Spread: name})
+		} else {
+			out = append(out, Sel{On: un, Subs: inner})
+		}
+		g.stats["union-typed-fragment-on-union"]++
 	}
 	g.stats["union"]++
 	return out
